@@ -34,7 +34,7 @@ m = {
          'kind_free_text': 'Rocq/Coq 8.16 development: Lib (bytes, sweeps, error monad), Gen (tables regenerated from /repo every run), Spec, Model (executable Gallina mirror of the Python), Proofs, Props (theorem statements + Print Assumptions)'},
         {'name': 'translator', 'path': 'tools/translate.py', 'serves_properties': [c['property_id'] for c in checks],
          'kind_free_text': 'fail-closed Python-ast translator: data tables of udsoncan -> coq/Gen/*.v'},
-        {'name': 'function-translator', 'path': 'tools/symtrans.py', 'serves_properties': ['C01', 'C02', 'C03', 'C04', 'C05', 'C06', 'C07', 'C08', 'C09', 'C10', 'C13', 'C14', 'C15', 'C17', 'C18', 'C19', 'C20'],
+        {'name': 'function-translator', 'path': 'tools/symtrans.py', 'serves_properties': ['C01', 'C02', 'C03', 'C04', 'C05', 'C06', 'C07', 'C08', 'C09', 'C10', 'C11', 'C13', 'C14', 'C15', 'C17', 'C18', 'C19', 'C20'],
          'kind_free_text': 'executes selected functions of udsoncan on symbolic arguments (operator overloading), enumerates every path and prints the complete decision tree as Gallina (coq/Gen/Fn_*.v); Proofs/Tie_*.v prove generated = model for all arguments'},
         {'name': 'correspondence', 'path': 'tools/harness/', 'serves_properties': [c['property_id'] for c in checks],
          'kind_free_text': 'runs the real udsoncan and the OCaml-extracted model on the same cases, diffs canonical observables, evaluates the property oracle on the implementation, decides violations / known findings, writes evidence'},
